@@ -318,7 +318,7 @@ def t_aliases(E):
     E.refutable("chm.aliases", agrees(E, E.method(m2, "merge", m1), ref, ("g", "x", "y", "z")))
 
 
-@task("bounded.choice_map.index_address_kinds", props=["C17", "C11"], functions=FUNCS, kind="bounded")
+@task("bounded.choice_map.index_address_kinds", props=["C17", "C11", "C35"], functions=FUNCS, kind="bounded")
 def t_bounded_index_kinds(_E):
     """BOUNDED stand-in (not a proof): array-valued index components, slices, builders under jax.vmap and vectorised flags -
     the address kinds the obligations above do not cover - on the real classes against an independently computed reference
